@@ -98,6 +98,7 @@ PLAN = {
         ],
         "thorough": [
             {"kind": "rapid", "test": "TestC02Pair", "checks": 400000, "shards": 16},
+            {"kind": "fuzz", "test": "FuzzC02", "time": 60},
         ],
     },
     "C04": {
@@ -106,6 +107,7 @@ PLAN = {
         ],
         "thorough": [
             {"kind": "rapid", "test": "TestC04Diff", "checks": 500000, "shards": 16},
+            {"kind": "fuzz", "test": "FuzzC04", "time": 90},
         ],
     },
     "C01": {
@@ -118,6 +120,8 @@ PLAN = {
             {"kind": "rapid", "test": "TestC01Fmt", "checks": 250000, "shards": 16},
             {"kind": "rapid", "test": "TestC01Hist", "checks": 200000, "shards": 16},
             {"kind": "rapid", "test": "TestC01Join", "checks": 50000, "shards": 16},
+            {"kind": "fuzz", "test": "FuzzC01", "time": 90},
+            {"kind": "fuzz", "test": "FuzzC01Hist", "time": 60},
         ],
     },
     "C03": {
@@ -130,6 +134,7 @@ PLAN = {
             {"kind": "rapid", "test": "TestC03Fmt", "checks": 250000, "shards": 16},
             {"kind": "rapid", "test": "TestC03Hist", "checks": 200000, "shards": 16},
             {"kind": "rapid", "test": "TestC03Join", "checks": 50000, "shards": 16},
+            {"kind": "fuzz", "test": "FuzzC03", "time": 60},
         ],
     },
     "C09": {
@@ -140,6 +145,7 @@ PLAN = {
         "thorough": [
             {"kind": "enum", "test": "TestEnumC09", "env": {"VERIF_BOUND": 5}, "timeout": 5400},
             {"kind": "rapid", "test": "TestC09Hist", "checks": 100000, "shards": 16},
+            {"kind": "fuzz", "test": "FuzzC09", "time": 60},
         ],
     },
     "C13": {
@@ -160,6 +166,7 @@ PLAN = {
         "thorough": [
             {"kind": "enum", "test": "TestEnumC07", "env": {"VERIF_BOUND": 8, "VERIF_ALPHA": 9}, "timeout": 3000},
             {"kind": "rapid", "test": "TestC07Laws", "checks": 300000, "shards": 16},
+            {"kind": "fuzz", "test": "FuzzC07Bytes", "time": 60},
         ],
     },
     "C10": {
@@ -172,6 +179,7 @@ PLAN = {
             {"kind": "enum", "test": "TestEnumC10", "env": {"VERIF_BOUND": 8, "VERIF_INNER_BOUND": 7, "VERIF_ALPHA": 9}, "timeout": 3000},
             {"kind": "rapid", "test": "TestC10Escape", "checks": 200000, "shards": 16},
             {"kind": "rapid", "test": "TestC10Split", "checks": 200000, "shards": 16},
+            {"kind": "fuzz", "test": "FuzzC10Bytes", "time": 60},
         ],
     },
 }
